@@ -5,6 +5,7 @@ package gohlslib
 // C19 — Low-Latency part regularity.
 
 import (
+	"strconv"
 	"time"
 
 	"github.com/bluenviron/gohlslib/v2/pkg/codecs"
@@ -90,7 +91,7 @@ func VerifH_C19_run() {
 	err := m.Start()
 	verifAssert("*", "start-accepts-configuration", err == nil)
 	K := verifParam("K", 12)
-	gop := 3 + verifChoice("gop", verifParam("GOPS", 3)) // key frame every 3..5 frames (symbolic placement)
+	gop := verifParam("GOPBASE", 3) + verifChoice("gop", verifParam("GOPS", 3)) // key frame every 3..5 frames (symbolic placement)
 	var lastTarget time.Duration
 	lastHadNonFinal := false
 	audioPTS := int64(0)
@@ -133,6 +134,7 @@ func VerifH_C19_run() {
 		nonFinal = append(nonFinal, pl.Parts...)
 		for i, p := range nonFinal {
 			verifReach("non-final-part")
+			verifReach("non-final-part@" + strconv.Itoa(int(ticks)))
 			verifAssert("C19", "non-final-parts-equal", verifAbsDur(p.Duration-nonFinal[0].Duration) <= verifDurTol || i == 0)
 			verifAssert("C19", "part-at-least-85-percent-of-part-target", p.Duration*100 >= target*85-time.Duration(100*verifDurTol))
 			verifAssert("C19", "part-at-most-part-target", p.Duration <= target+verifDurTol)
